@@ -321,6 +321,8 @@ def run_instance(eng, prover, inst, props):
             for e in x.events:
                 if e[0] == "lock-exit":
                     prover.goal(f"C10/{base}/release-only-held", prefix_state(x, e), e[3] > 0, info=ctx)
+            from props.locks import check_lock_order
+            check_lock_order(eng, prover, f"C10/{base}/lock-order", x, ctx)
 
         if "C18" in props:
             prot_names = None
@@ -331,6 +333,10 @@ def run_instance(eng, prover, inst, props):
                         prot_names = pk.v
                     ok = e[2] in prot_names or e[2].startswith("__")
                     prover.structural(f"C18/{base}/internal-attribute-is-protected", ok, x, dict(ctx, name=e[2], where=e[3]))
+        if "C09" in props and spec["kind"] == "mutator":
+            check_guarded(eng, prover, "C09", base, x, s, ctx)
+        if "C14" in props:
+            check_guarded(eng, prover, "C14", base, x, s, ctx)
         if "C16" in props:
             check_c16(eng, prover, base, x, res, s, ctx, inst.meth)
         if "C11" in props:
@@ -588,3 +594,46 @@ def check_c16(eng, prover, base, x, res, s, ctx, meth):
     if meth in DETACHED_RESULTS and not isinstance(res, Raise):
         ok = isinstance(res, Z) and bool(res.meta.get("plain"))
         prover.structural(f"C16/{base}/result:derived-from-_to_base-only", ok, x, ctx)
+
+
+TREE_CONTRACTS = ("_load", "_save", "_update", "SyncedCollection._from_base", "SyncedCollection._from_base.map", "_to_base",
+                  "virtual:_update", "virtual:_to_base", "_load_from_resource", "_save_to_resource")
+
+
+def tree_accesses(x, s):
+    """Indices of the events that read or write the shared state of the receiver's tree: its containers, the shared
+    suspend counter, the resource."""
+    nodes = {n.addr for n in s.nodes}
+    out = []
+    for i, e in enumerate(x.events):
+        k = e[0]
+        if k in ("cell-read", "cell-write") and e[1] in nodes:
+            out.append(i)
+        elif k == "contract" and e[1] in TREE_CONTRACTS and not (e[1].startswith("SyncedCollection._from_base") and e[2] == "leaf") \
+                and e[2] not in ("suspended",):
+            out.append(i)
+        elif k in ("load", "save", "data-rebound"):
+            out.append(i)
+        elif k == "field-store" and e[1] == s.susp.addr:
+            out.append(i)
+    return out
+
+
+def check_guarded(eng, prover, pid, base, x, s, ctx):
+    """Lock discipline (DESIGN 6 C09/C14): every access to the tree's shared state is made while the ONE lock of the
+    root's file is held, and that lock is not released between the first and the last access of the call."""
+    info = eng.R["classes"][s.rootcls.name]
+    if not (eng.mode.get("threads") and info["supports_threading"]):
+        return
+    acc = tree_accesses(x, s)
+    if not acc:
+        prover.structural(f"{pid}/{base}/guarded:tree-state", True, x, ctx)
+        return
+    lid = smt.F("lockid", IntS, Val, IntS)(z3.IntVal(smt.tid_of(s.rootcls.name)), to_val(x.rec(s.root).fields["_filename"]))
+    held = []
+    for i in range(acc[0], acc[-1] + 1):
+        d = x.evdepth[i]
+        if d is not None:
+            held.append(z3.Select(d, lid) >= 1)
+    prover.goal(f"{pid}/{base}/guarded:tree-state-under-one-hold-of-the-file-lock", x, smt.and_(held),
+                info=dict(ctx, first_access=str(x.events[acc[0]][:3]), n_accesses=len(acc)))
